@@ -496,6 +496,13 @@ func (c *TermCtx) Add(a, b *Term) *Term {
 	if b.op == OpConst && b.c == 0 {
 		return a
 	}
+	// a + (-x)  ==>  a - x   (lets range reasoning avoid wrap-around)
+	if b.op == OpNeg {
+		return c.Sub(a, b.args[0])
+	}
+	if a.op == OpNeg {
+		return c.Sub(b, a.args[0])
+	}
 	// (x + k1) + k2
 	if b.op == OpConst && a.op == OpAdd && a.args[1].op == OpConst && a.w <= 64 {
 		return c.Add(a.args[0], c.Const(a.w, a.args[1].c+b.c))
@@ -797,6 +804,11 @@ func (c *TermCtx) DivModConst(a *Term, k uint64, signed bool) (q, r *Term) {
 	}
 	if k == 1 {
 		return a, c.Const(w, 0)
+	}
+	// truncated division is odd: (-x)/k = -(x/k), (-x)%k = -(x%k)
+	if signed && a.op == OpNeg && nonNeg(a.args[0]) {
+		q, r := c.DivModConst(a.args[0], k, true)
+		return c.Neg(q), c.Neg(r)
 	}
 	// x*k / k
 	if a.op == OpMul && a.args[1].op == OpConst && a.args[1].c == k && a.rng {
